@@ -112,7 +112,10 @@ parse_line = Fn(P, 'parse_line', ret='r',
 
 line_to_cmds = Fn(P, 'line_to_cmds', ret='r', strvars=('sep',),
     let_types={'result': 'Vec<String>'},
-    ensures=[('C01+C03.l2c.quoted_or_escaped_operators_never_split', 'no_active_operator(line@) ==> r@.len() <= 1')],
+    ensures=[('C01+C03.l2c.quoted_or_escaped_operators_never_split', 'no_active_operator(line@) ==> r@.len() <= 1'),
+             # every element of the list is an operator or the text of a pipeline: never an empty command (which would run as a no-op
+             # with status 0 and replace the status of the last real pipeline)
+             ('C03.l2c.no_empty_command_in_the_list', 'forall|k: int| 0 <= k < r@.len() ==> (#[trigger] r@[k])@.len() > 0')],
     loops={0: Loop(invariant=[
         ('C05.inv.len', 'len == line@.len()'),
         ('C01+C03.inv.l2c.escape_state_is_the_specified_one', 'has_backslash == lq(line@, __I as int).1'),
@@ -120,9 +123,10 @@ line_to_cmds = Fn(P, 'line_to_cmds', ret='r', strvars=('sep',),
          '(lq(line@, __I as int).0.len() > 0 ==> sep@ == lq(line@, __I as int).0) && '
          '(lq(line@, __I as int).0.len() == 0 ==> sep@.len() == 0 || ((sep@ == seq![\'&\'] || sep@ == seq![\'|\']) && !has_backslash '
          '&& 0 < __I < line@.len() && line@[__I as int] == sep@[0] && line@[__I - 1] == sep@[0]))'),
+        ('C03.inv.l2c.no_empty_command_so_far', 'forall|k: int| 0 <= k < result@.len() ==> (#[trigger] result@[k])@.len() > 0'),
         ('C01+C03.inv.l2c.no_split_so_far', 'no_active_operator(line@) ==> result@.len() == 0 && (lq(line@, __I as int).0.len() == 0 ==> sep@.len() == 0)'),
     ])},
-    hints={'loop-0-body-entry': 'lemma_quote_lits(); lemma_lq_shape(line@, __I as int); lemma_lq_shape(line@, __I + 1);'},
+    hints={'loop-0-body-entry': 'lemma_quote_lits(); lemma_lq_shape(line@, __I as int); lemma_lq_shape(line@, __I + 1); reveal_strlit(";");'},
 )
 
 tokens_to_line = Fn(P, 'tokens_to_line', ret='r',
